@@ -346,8 +346,14 @@ class FnExec:
             sig = ("ret", NONE)
         if sig[0] == "ret":
             res = sig[1]
+            # in postconditions parameter names denote the ENTRY values (callers cannot observe rebinding);
+            # heap state (stream.data ...) and locals are the exit ones; old(...) gives the entry heap
+            pst = st.clone()
+            for p in self.c.types:
+                if p in self.entry.env:
+                    pst.env[p] = self.entry.env[p]
             for name, e in self.c.ensures:
-                g = self.truth(self.ev_spec(e, st, result=res))
+                g = self.truth(self.ev_spec(e, pst, result=res))
                 self.oblige(st, f"ensures[{name}]", g, "ensures", use=self.inst_uses(self.c.use, st, res))
             # an `iff` raise condition must not hold on a normal exit
             for exc, kind, cond in self.c.raises:
@@ -435,8 +441,9 @@ class FnExec:
             return z3.If(v.t, z3.IntVal(1), z3.IntVal(0))
         if v.kind == "obj":
             # type-safety side obligation: the dynamic value is an int (or bool)
-            self.oblige(st, f"type[{what}]", z3.Or(PyObj.is_PInt(v.t), PyObj.is_PBool(v.t)), "safety")
-            return z3.If(PyObj.is_PBool(v.t), z3.If(PyObj.pbool(v.t), z3.IntVal(1), z3.IntVal(0)), PyObj.pint(v.t))
+            self.oblige(st, f"type[{what}]@{self.cur_line}", z3.Or(PyObj.is_PInt(v.t), PyObj.is_PBool(v.t), PyObj.is_PEnum(v.t)), "safety")
+            from .speclib import obj_int
+            return obj_int(v.t)
         raise Unsupported(f"{what}: expected int, got {v.kind}")
 
     def as_bytes(self, v, st, what="bytes operand"):
@@ -607,11 +614,11 @@ class FnExec:
             yield st2, FALL
 
     def s_If(self, node, st):
-        for st1, v in self.ev(node.test, st):
+        for st1, v in self.ev_cond(node.test, st):
             if isinstance(v, Raised):
                 yield st1, ("raise", v.exc)
                 continue
-            c = self.truth(v)
+            c = v
             cb = concrete_bool(c)
             if cb is not False:
                 s_t = st1.clone()
@@ -797,11 +804,11 @@ class FnExec:
         # 3. guard
         if guard is not None:
             branches = []
-            for st3, g in self.ev(guard, hs):
+            for st3, g in self.ev_cond(guard, hs):
                 if isinstance(g, Raised):
                     yield st3, ("raise", g.exc)
                     continue
-                branches.append((st3, self.truth(g)))
+                branches.append((st3, g))
         else:
             k = hs.env[kname].t
             branches = [(hs, (k < length) if length is not None else z3.BoolVal(True))]
@@ -978,11 +985,11 @@ class FnExec:
         yield st, SV("const", "<f-string>")
 
     def e_IfExp(self, node, st):
-        for st1, c in self.ev(node.test, st):
+        for st1, c in self.ev_cond(node.test, st):
             if isinstance(c, Raised):
                 yield st1, c
                 continue
-            ct = self.truth(c)
+            ct = c
             if self.is_spec:
                 a = self.ev_spec(node.body, st1, self._result)
                 b = self.ev_spec(node.orelse, st1, self._result)
@@ -1010,6 +1017,36 @@ class FnExec:
         if a.kind == "none":
             return a
         return SV(a.kind, z3.If(c, a.t, b.t))
+
+    def ev_cond(self, node, st):
+        """evaluate an expression in a truth context: yields (state, z3 Bool | Raised).  Avoids building
+        operand-returning ite values for `a or b` when only the truth value is needed."""
+        if isinstance(node, ast.UnaryOp) and isinstance(node.op, ast.Not):
+            for st1, c in self.ev_cond(node.operand, st):
+                yield st1, (c if isinstance(c, Raised) else z3.Not(c))
+            return
+        if isinstance(node, ast.BoolOp) and (self.is_spec or all(self.pure(x) for x in node.values[1:])):
+            is_and = isinstance(node.op, ast.And)
+            for st1, c0 in self.ev_cond(node.values[0], st):
+                if isinstance(c0, Raised):
+                    yield st1, c0
+                    continue
+                terms = [c0]
+                ok = True
+                for x in node.values[1:]:
+                    outs = list(self.ev_cond(x, st1))
+                    if len(outs) != 1 or isinstance(outs[0][1], Raised) or outs[0][0].pc != st1.pc:
+                        ok = False
+                        break
+                    terms.append(outs[0][1])
+                if ok:
+                    yield st1, (z3.And(*terms) if is_and else z3.Or(*terms))
+                else:
+                    for st2, v in self.ev(node, st1):
+                        yield st2, (v if isinstance(v, Raised) else self.truth(v))
+            return
+        for st1, v in self.ev(node, st):
+            yield st1, (v if isinstance(v, Raised) else self.truth(v))
 
     def e_BoolOp(self, node, st):
         is_and = isinstance(node.op, ast.And)
@@ -1059,7 +1096,7 @@ class FnExec:
                 yield st1, v
                 continue
             if isinstance(node.op, ast.Not):
-                yield st1, sv_bool(z3.Not(self.truth(v)))
+                yield st1, sv_bool(z3.Not(self.truth(v)))     # (operand already evaluated as a value)
             elif isinstance(node.op, ast.USub):
                 if v.kind == "const" and isinstance(v.t, float):
                     yield st1, SV("const", -v.t)
@@ -1480,6 +1517,10 @@ class FnExec:
         if tag in ("class", "classattr"):
             yield from self.eng.spec.call_class(self, f.t, pos, kw, st, node)
             return
+        r = self.eng.spec._plug("call_other", self, f.t, pos, kw, st, node)
+        if r is not None:
+            yield from r
+            return
         raise Unsupported(f"call tag {tag}")
 
     def bind_args(self, fn_node, pos, kw, skip_self=False):
@@ -1505,6 +1546,10 @@ class FnExec:
         return bound
 
     def call_repo(self, qualname, pos, kw, st, node, recv=None):
+        r = self.eng.spec._plug("call_repo", self, qualname, pos, kw, st, node)
+        if r is not None:
+            yield from r
+            return
         c = self.eng.contracts.get(qualname)
         if c is None:
             raise Unsupported(f"call to {qualname} which has no contract")
